@@ -1,0 +1,9 @@
+//! Accessors for the external model-checking harness.
+//!
+//! This module only exists when the `verif-hooks` cargo feature is enabled. It adds
+//! no behaviour to the server: everything here is a thin public wrapper over items
+//! that are otherwise crate-private, so that an out-of-tree harness can drive and
+//! observe them. Nothing in the workspace enables the feature.
+
+#![allow(clippy::unwrap_used, clippy::expect_used, clippy::panic)]
+#![allow(clippy::indexing_slicing, clippy::needless_pass_by_value)]
